@@ -48,6 +48,43 @@ Proof.
   destruct (Nat.ltb_spec r n) as [_|Hge]; [|lia]. apply pseudo_map, Hk.
 Qed.
 
+(* structural sufficient condition for a single metric: all ranks hold the same (sorted) state
+   names and, under every name, states of the same kind satisfying the hypotheses of C15 *)
+Definition state_iv (sds : nat -> sdict) (k : key) (j : nat) : gs :=
+  match assoc (snd k) (sds j) with Some s => ideal_of_state s | None => GEmpty end.
+Definition state_tl (sds : nat -> sdict) (k : key) : gs :=
+  match assoc (snd k) (sds 0) with Some s => filler s | None => GEmpty end.
+
+Lemma traversal_tmp (s : sdict) : traversal [(TMP, s)] = map (fun x => (TMP, x)) (map fst (sort_keys s)).
+Proof.
+  unfold traversal. change (sort_keys [(TMP, s)]) with [(TMP, s)]. cbn [flat_map fst snd].
+  rewrite app_nil_r, map_map. reflexivity.
+Qed.
+
+Lemma NoDup_tmp names : NoDup names -> NoDup (map (fun x : string => (TMP, x)) names).
+Proof.
+  induction 1 as [|x l Hnin Hnd IH]; cbn [map]; constructor; [|exact IH].
+  intros Hin. apply in_map_iff in Hin as (y & E & Hy). inversion E; subst. contradiction.
+Qed.
+
+Lemma schema_agree_structural g Wg (sds : nat -> sdict) (names : list string) : let n := List.length g in
+  n > 0 -> n <= Wg ->
+  (forall i, i < n -> map fst (sort_keys (sds i)) = names) ->
+  (forall s, In s names -> exists ss, (forall i, i < n -> assoc s (sds i) = Some (ss i)) /\ kind_ok g ss) ->
+  schema_agree g Wg (fun i => [(TMP, sds i)]) (map (fun x => (TMP, x)) names) (state_iv sds) (state_tl sds).
+Proof.
+  intros n Hn HW Hnames H. split.
+  - intros i Hi. rewrite traversal_tmp, (Hnames i Hi). reflexivity.
+  - intros k Hk. apply in_map_iff in Hk as (s & <- & Hs). destruct (H s Hs) as (ss & Hl & Hkind).
+    exists ss. split.
+    + intros i Hi. unfold lookup2. cbn [assoc fst snd]. rewrite String.eqb_refl. apply Hl, Hi.
+    + unfold state_tl. cbn [snd]. rewrite (Hl 0 Hn).
+      apply (ideal_family_ext g None Wg ss ss _ (fun j => ideal_of_state (ss j))).
+      * reflexivity.
+      * intros j Hj. unfold state_iv. cbn [snd]. rewrite (Hl j Hj). reflexivity.
+      * apply (ideal_of_kind g None Wg ss Hn HW I Hkind).
+Qed.
+
 Section ToolkitP.
 Variables (M Out : Type).
 Variable sd : M -> sdict.
@@ -162,6 +199,26 @@ Proof.
              (fun _ : nat => Some (ideal_gath n Wg order iv tl)).
   { exact Hrun. }
   apply run_all_ret_ext. intros i _. reflexivity.
+Qed.
+
+Theorem sync_equals_local_merge_structural g Wg (ms : nat -> M) (names : list string) :
+  let n := List.length g in
+  n > 1 -> n <= Wg -> NoDup names ->
+  (forall i, i < n -> map fst (sort_keys (sd (ms i))) = names) ->
+  (forall s, In s names -> exists ss, (forall i, i < n -> assoc s (sd (ms i)) = Some (ss i)) /\ kind_ok g ss) ->
+  run_all (respond g) (map (fun i => get_synced_metric M sd mrg n i Wg (ms i)) (seq 0 n))
+  = Some (map (fun i => Ok (mrg (ms i)
+             (map (fun j => map (fun s => (s, state_iv (fun i => sd (ms i)) (TMP, s) j)) names)
+                  (filter (fun r => negb (Nat.eqb r i)) (seq 0 n))))) (seq 0 n)).
+Proof.
+  intros n Hn HW Hnd Hnames H.
+  etransitivity.
+  { apply (sync_equals_local_merge_exact g Wg ms (map (fun x => (TMP, x)) names)
+             (state_iv (fun i => sd (ms i))) (state_tl (fun i => sd (ms i))));
+      [fold n; lia|exact HW|apply NoDup_tmp, Hnd|].
+    apply (schema_agree_structural g Wg (fun i => sd (ms i)) names); [fold n; lia|exact HW|exact Hnames|exact H]. }
+  fold n. f_equal. apply map_ext. intros i. do 2 f_equal. apply map_ext. intros j.
+  unfold ideal_pseudo. rewrite map_map. reflexivity.
 Qed.
 
 Corollary sync_no_mismatch g Wg (ms : nat -> M) order iv tl : let n := List.length g in
